@@ -9,7 +9,7 @@ from . import gen, solverlib
 
 def jobs_for(tier, rng):
     jobs = []
-    n = 40 if tier == "quick" else 300
+    n = 40 if tier == "quick" else 900
     for k in range(n):
         PD = rng.choice([1, 2, 2, 4])
         m = gen.union(rng, rng.randint(3, 9), PD=PD, v0max=rng.choice([0, 2, 3]),
